@@ -154,7 +154,7 @@ def EntrezGeneId : ColSpec := {
   buildMethod := some "MafCustomColumnRecord",
   validateMethod := some "MafCustomColumnRecord",
   nullDict := some [("0", Model.NullVal.none)],
-  buildChain := ["IntegerColumn", "MafCustomColumnRecord"],
+  buildChain := ["EntrezGeneId", "IntegerColumn", "MafCustomColumnRecord"],
   validateChain := ["IntegerColumn", "MafCustomColumnRecord"],
   stringChain := ["MafColumnRecord"],
   enumCls := none,
